@@ -19,6 +19,8 @@ import (
 	"github.com/ipfs/go-cid"
 	"github.com/multiformats/go-multihash"
 	"github.com/rpcpool/yellowstone-faithful/compactindexsized"
+	legacybucketteer "github.com/rpcpool/yellowstone-faithful/deprecated/bucketteer"
+	legacyindex "github.com/rpcpool/yellowstone-faithful/deprecated/compactindex"
 	"github.com/rpcpool/yellowstone-faithful/indexes"
 	old_faithful_grpc "github.com/rpcpool/yellowstone-faithful/old-faithful-proto/old-faithful-grpc"
 	"github.com/rpcpool/yellowstone-faithful/zzverif/cargen"
@@ -112,6 +114,93 @@ func c03FindCollider(db *compactindexsized.DB, stored [][]byte, gen func(i uint6
 		}
 	}
 	return nil, nil, maxTries
+}
+
+// c03BuildLegacyCidIndex writes a deprecated (size-less) cid-to-offset index over the epoch's CAR with the
+// repository's own legacy builder: key = CID bytes, value = offset of the section in the CAR.
+func c03BuildLegacyCidIndex(dir string, t *cargen.Truth) (string, error) {
+	tmp := filepath.Join(dir, "legacy-build")
+	if err := os.MkdirAll(tmp, 0o755); err != nil {
+		return "", err
+	}
+	b, err := legacyindex.NewBuilder(tmp, uint(len(t.Objects)), uint64(len(t.Bytes)))
+	if err != nil {
+		return "", err
+	}
+	defer b.Close()
+	for _, o := range t.Objects {
+		if err := b.Insert(o.Cid.Bytes(), o.Offset); err != nil {
+			return "", err
+		}
+	}
+	path := filepath.Join(dir, "legacy.cid-to-offset.index")
+	f, err := os.OpenFile(path, os.O_CREATE|os.O_RDWR|os.O_TRUNC, 0o644)
+	if err != nil {
+		return "", err
+	}
+	defer f.Close()
+	if err := b.Seal(context.Background(), f); err != nil {
+		return "", err
+	}
+	return path, nil
+}
+
+// c03BuildLegacySigExists writes the signature-existence index in the deprecated format (which a config with
+// the deprecated cid-to-offset index is read with), using the repository's own legacy writer.
+func c03BuildLegacySigExists(dir string, t *cargen.Truth) (string, error) {
+	path := filepath.Join(dir, "legacy.sig-exists.index")
+	os.Remove(path)
+	w, err := legacybucketteer.NewWriter(path)
+	if err != nil {
+		return "", err
+	}
+	for _, tx := range t.Txs {
+		w.Put(tx.Sig)
+	}
+	if _, err := w.Seal(map[string]string{}); err != nil {
+		w.Close()
+		return "", err
+	}
+	return path, w.Close()
+}
+
+// c03FindLegacyCollider: like c03FindCollider for the deprecated index format (bucket and in-bucket hash
+// computed with that format's own functions, domains read from the built file).
+func c03FindLegacyCollider(db *legacyindex.DB, stored [][]byte, gen func(i uint64) []byte, start uint64, maxTries uint64) (cand []byte, tries uint64) {
+	type hk struct {
+		bucket uint
+		h      uint64
+	}
+	storedSet := map[string]bool{}
+	hashes := map[hk]bool{}
+	buckets := map[uint]*legacyindex.Bucket{}
+	for _, k := range stored {
+		storedSet[string(k)] = true
+		bi := db.Header.BucketHash(k)
+		if _, ok := buckets[bi]; !ok {
+			b, err := db.GetBucket(bi)
+			if err != nil {
+				continue
+			}
+			buckets[bi] = b
+		}
+		hashes[hk{bi, buckets[bi].Hash(k)}] = true
+	}
+	for i := start; i < start+maxTries; i++ {
+		k := gen(i)
+		if storedSet[string(k)] {
+			continue
+		}
+		bi := db.Header.BucketHash(k)
+		b, ok := buckets[bi]
+		if !ok {
+			continue
+		}
+		if hashes[hk{bi, b.Hash(k)}] {
+			return k, i - start + 1
+		}
+	}
+	return nil, maxTries
 }
 
 func c03GenSig(i uint64) []byte {
@@ -294,6 +383,58 @@ func TestVerif_C03(t *testing.T) {
 			R.Note("cannot open the gsfa pubkey index: %v", err)
 		}
 	}
+	// legacy world: the same epoch served through a deprecated cid-to-offset index (config names
+	// indexes.cid_to_offset only), with absent CIDs colliding in THAT index
+	var legacyCidColliders []cid.Cid
+	legacyConfig := ""
+	if task(4) {
+		lpath, err := c03BuildLegacyCidIndex(eA.Dir, eA.Truth)
+		if err != nil {
+			R.Internal("cannot build the legacy cid-to-offset index: %v", err)
+			return
+		}
+		var keys [][]byte
+		for _, o := range eA.Truth.Objects {
+			keys = append(keys, o.Cid.Bytes())
+		}
+		lf, err := os.Open(lpath)
+		if err != nil {
+			R.Internal("%v", err)
+			return
+		}
+		ldb, err := legacyindex.Open(lf)
+		if err != nil {
+			R.Internal("cannot open the legacy index: %v", err)
+			return
+		}
+		start := seed
+		for len(legacyCidColliders) < nOther {
+			cand, tries := c03FindLegacyCollider(ldb, keys, c03GenCid, start, 20_000_000)
+			start += tries
+			if cand == nil {
+				break
+			}
+			if _, err := ldb.Lookup(cand); err != nil {
+				continue // not a hit of the real lookup after all: not a collider
+			}
+			if _, c, err := cid.CidFromBytes(cand); err == nil {
+				legacyCidColliders = append(legacyCidColliders, c)
+			}
+		}
+		lf.Close()
+		lsig, err := c03BuildLegacySigExists(eA.Dir, eA.Truth)
+		if err != nil {
+			R.Internal("cannot build the legacy sig-exists index: %v", err)
+			return
+		}
+		legacyConfig = eA.writeConfig(vkConfigOpts{Name: "config-legacy", LegacyCidToOffset: lpath, Overrides: map[string]string{"sig_exists": lsig}})
+		eA.writeConfig(vkConfigOpts{}) // ConfigPath back to the current-format config
+		if len(legacyCidColliders) == 0 {
+			R.Note("no colliding absent CID could be constructed for the legacy index")
+			R.Exhaustive = false
+		}
+	}
+	R.Add("legacy_cid_colliders", int64(len(legacyCidColliders)))
 	R.Add("sig_colliders", int64(len(sigColliders)))
 	R.Add("cid_colliders", int64(len(cidColliders)))
 	R.Add("address_colliders", int64(len(addrColliders)))
@@ -304,15 +445,30 @@ func TestVerif_C03(t *testing.T) {
 	R.Sample(map[string]interface{}{"colliding_skipped_slots": slotColliders, "colliding_absent_signatures": fmt.Sprint(sigColliders), "colliding_absent_addresses": fmt.Sprint(addrColliders)})
 
 	ctx := context.Background()
-	for _, two := range []bool{false, true} {
+	type c03WorldCfg struct {
+		label  string
+		two    bool
+		config string
+		cids   []cid.Cid
+	}
+	worlds := []c03WorldCfg{{"one-epoch", false, eA.ConfigPath, cidColliders}, {"two-epochs", true, eA.ConfigPath, cidColliders}}
+	if legacyConfig != "" {
+		worlds = append(worlds, c03WorldCfg{"one-epoch/legacy-cid-to-offset-index", false, legacyConfig, legacyCidColliders})
+	}
+	for _, wc := range worlds {
+		two, label, cidColliders := wc.two, wc.label, wc.cids
 		cache := vkNewCache()
-		epA, err := vkLoadEpoch(eA.ConfigPath, cache)
+		epA, err := vkLoadEpoch(wc.config, cache)
 		if err != nil {
+			if wc.config == legacyConfig {
+				R.Note("the epoch does not load with the legacy cid-to-offset index: %v", err)
+				R.Exhaustive = false
+				continue
+			}
 			R.Internal("load A: %v", err)
 			return
 		}
 		eps := []*Epoch{epA}
-		label := "one-epoch"
 		if two {
 			epB, err := vkLoadEpoch(eB.ConfigPath, cache)
 			if err != nil {
@@ -320,7 +476,6 @@ func TestVerif_C03(t *testing.T) {
 				return
 			}
 			eps = append(eps, epB)
-			label = "two-epochs"
 		}
 		multi := vkNewMulti(2, eps...)
 		h := newMultiEpochHandler(multi, nil)
@@ -415,6 +570,29 @@ func TestVerif_C03(t *testing.T) {
 				if !strings.Contains(string(resp), sig.String()) {
 					viol("getTransaction|colliding-signature", fmt.Sprintf("JSON-RPC getTransaction(%s): signature is not archived, but a transaction of slot %v was returned", sig, res["slot"]), map[string]interface{}{"signature": sig.String()})
 				}
+			}
+		}
+		if wc.config == legacyConfig && legacyConfig != "" {
+			// control: through the legacy index every stored CID is answered with its own bytes (so the
+			// world is functional and the colliders below really exercise its lookup path)
+			failed := 0
+			for _, o := range eA.Truth.Objects {
+				o := o
+				guard("GetNodeByCid(stored)", func() {
+					data, err := epA.GetNodeByCid(ctx, o.Cid)
+					R.Case(false, "")
+					if err != nil {
+						failed++
+					} else if string(data) != string(o.Data) {
+						viol("fetch-by-cid|stored-cid-other-bytes", fmt.Sprintf("GetNodeByCid(%s) through the legacy index returned %d bytes that are not the archived object", o.Cid, len(data)), map[string]interface{}{"cid": o.Cid.String()})
+					}
+				})
+			}
+			if failed > 0 {
+				R.Note("[%s] %d of %d stored CIDs could not be fetched through the legacy index: the collider requests below are not meaningful", label, failed, len(eA.Truth.Objects))
+				R.Exhaustive = false
+			} else {
+				R.Outcome("legacy-world:every-stored-cid-fetched")
 			}
 		}
 		for _, c := range cidColliders {
